@@ -108,3 +108,19 @@ def _(c):
     c.ensures("implies(len(appended('self.visit')) > 0 and isa(call_result('self.visit', len(appended('self.visit')) - 1), Value)"
               " and all(call_result('self.visit', j) is None for j in range(len(appended('self.visit')) - 1)),"
               " same(result, CombinedReturn.make(call_result('self.visit', len(appended('self.visit')) - 1))))", name="first_definite_return_is_the_result")
+
+
+@contract("pyanalyze.type_evaluation.unite_varmaps", props=P)
+def _(c):
+    c.param("varmaps", "seq[dict[val,val]]")
+    c.returns("opt[dict[val,val]]")
+    c.requires("all(all(wf_union(m[k]) and implies(isa(m[k], AnnotatedValue), wf_union(m[k].value)) and not _is_unreachable(m[k])"
+               " and implies(isa(m[k], MultiValuedValue), all(not _is_unreachable(x) for x in m[k].vals))"
+               " and implies(isa(m[k], AnnotatedValue) and isa(m[k].value, MultiValuedValue), all(not _is_unreachable(x) for x in m[k].value.vals)) for k in m) for m in varmaps)",
+               name="narrowed_types_are_well_formed_values")
+    c.ensures("implies(len(varmaps) == 0, result is None)", name="no_operand_no_narrowing")
+    # the other branch of an `and` / `or` is reached when SOME operand failed: a variable may be narrowed there only if
+    # every operand narrows it, and then to the union of the operands' narrowed types
+    c.ensures("implies(len(varmaps) > 0, result is not None and forall(lambda k: (k in result) == all(k in m for m in varmaps), 'val'))", name="narrowed_variables_are_those_every_operand_narrows")
+    c.ensures("implies(len(varmaps) > 0, all(forall(lambda o: mem(o, result[k]) == exists(lambda j: 0 <= j and j < len(varmaps) and mem(o, varmaps[j][k]), 'int'), 'obj') for k in result))",
+              name="narrowed_to_the_union_of_the_operands_types")
